@@ -20,8 +20,11 @@ MODULES = {
     "C03": "h_sandbox",
     "C04": "h_reflect",
     "C18": "h_reflect",
+    "C20": "h_parse",
     "C05": "h_fs",
     "C06": "h_fs",
+    "C07": "h_fault",
+    "C09": "h_copier",
     "C10": "h_fs",
     "C11": "h_fs",
 }
